@@ -122,6 +122,23 @@ def run(chk, model_ok=True):
             if name != "TimeoutError":
                 chk.violation("oracle", f"async get() on {peer.label}: {k} non-matching datagram(s) and no reply ended as {name}",
                               {"kind": "oracle", "lines": [f"# async {peer.label} strays={k}"]})
+    # (c) the clients' own discovery (refresh() / first call) against agents that announce engine ids of unusual
+    # lengths — an empty one included: every call comes back with a value or a documented exception
+    from props import c13
+    for ln_ in (0, 1, 33, 300):
+        for mode in ("sync", "async"):
+            eng = bytes(rng.getrandbits(8) for _ in range(ln_))
+            peer = e2e.Peer("v3", auth=rng.choice([1, 2]), priv=rng.choice([0, 1, 2]), engine_id=eng,
+                            auth_kt="localized", priv_kt="localized")
+            runner = c13.run_sync_client if mode == "sync" else c13.run_async_client
+            script, r, results = e2e.run_guarded(lambda: runner(rng, peer, True, ["1.3.6.1.2.1.1.1.0"]), 40.0,
+                                                 (None, ("exc", "Hang", True), []))
+            n_e2e += 1
+            if r[0] == "exc" and (not r[2] or r[1] not in DOCUMENTED):
+                chk.violation("oracle", f"{mode} client, discovery against an agent announcing a {ln_}-octet engine id: the call ended with "
+                              f"{r[1]} (a panic, an undocumented exception or a call that never came back) instead of a value or a "
+                              "documented exception",
+                              {"kind": "oracle", "lines": [f"# {mode} discovery engine-id-length {ln_}"], "engine_id_len": ln_})
     st.diff("C01 decoders")
     st.coverage(
         "streams: corpus of former crashers; structured-valid (40%) / mutated (40%) / grammar-malformed (20%) "
